@@ -11,7 +11,9 @@ TERMS = [L(S("fuel-level"), S("?a")), L(S("load_2"), S("?a"), S("?b")), L(S("x")
 
 INTS = [1, 2, 3, 5, 7, -1, -3]
 DECS = [(1, 2), (9, 4), (3, 2), (-5, 2), (1, 4), (7, 2)]
-NEAR = [(299999, 100000), (300001, 100000), (-199999, 100000), (99999, 100000)]
+# near-integer constants that still lie inside the 15-bit bound within which the specification evaluates exactly
+# (2.99999 = 299999/100000 would make every grid evaluation undetermined)
+NEAR = [(9999, 10000), (10001, 10000), (-9999, 10000), (-10001, 10000), (99999, 100000), (299999, 100000)]
 
 
 def frac_digits(fr):
@@ -126,7 +128,28 @@ def domain_tree(conds):
                S(":precondition"), L(S("and"), *conds), S(":effect"), L(S("and"), L(S("p"), S("?a")))))
 
 
+def aligned_case(seed, cid):
+    """one linear condition whose coefficient is +-1 +- 1e-4 and whose threshold is what the *integer* gives at
+    a grid point: (<= (* 1.0001 (x)) 2) is false at x = 2 and true with the coefficient rounded, so a coefficient
+    that lost its fourth decimal shows at the grid point itself (requested with 4, 5 or 6 decimals).  The constants
+    stay inside the 15-bit bound within which the specification evaluates exactly."""
+    rng = random.Random(seed * 2750159 + cid)
+    t = rng.choice(TERMS)
+    k = rng.choice([1, -1])
+    c = Fraction(k) + rng.choice([1, -1]) * Fraction(1, 10000)
+    x0 = Fraction(rng.choice([1, 2, 3, 4, -2, -1])) / rng.choice([1, 2])
+    b = Fraction(rng.choice([0, 0, 1, -3, 1]), rng.choice([1, 2]))
+    thr = k * x0 + b
+    lin = L(S("*"), N(c.numerator, c.denominator), t) if rng.random() < 0.5 else L(S("*"), t, N(c.numerator, c.denominator))
+    left = lin if b == 0 else L(S("+"), lin, N(b.numerator, b.denominator))
+    cond = L(S(rng.choice(["<", "<=", "=", ">=", ">"])), left, N(thr.numerator, thr.denominator))
+    return {"id": cid, "tree": domain_tree([cond]), "digits": rng.choice([4, 5, 6]), "how": rng.choice(["tree", "print"]),
+            "exact": True, "need": 4, "shape": "aligned"}
+
+
 def gen_case(seed, cid):
+    if cid % 8 == 5:
+        return aligned_case(seed, cid)
     rng = random.Random(seed * 2750159 + cid)
     terms = rng.sample(TERMS, rng.choice([1, 2, 2, 3, 4]))
     kinds = rng.choice([["int"], ["int", "dec"], ["int", "dec"], ["int", "near"], ["dec"], ["dec", "near"], ["int", "dec", "near"]])
@@ -144,5 +167,7 @@ def gen_case(seed, cid):
         conds = [g.equality()] + [g.cond(2) for _ in range(rng.choice([1, 2]))]
     digits = rng.choice([0, 1, 2, 2, 3, 4, 4, 5, 6])
     how = "tree" if shape in ("single", "rational") and rng.random() < 0.5 else "print"
-    return {"id": cid, "tree": domain_tree(conds), "digits": digits, "how": how, "exact": digits >= g.need and shape != "set+eq"
-            and "near" not in kinds, "shape": shape}
+    # exact: every constant an exact simplification can need is representable with the requested decimals
+    # (near-integer constants such as 2.00001 need five)
+    return {"id": cid, "tree": domain_tree(conds), "digits": digits, "how": how, "exact": digits >= g.need and shape != "set+eq",
+            "need": g.need, "shape": shape}
